@@ -76,7 +76,12 @@ func (m *Mast) loadPersisted(ctx context.Context, l string) (*mastNode, error) {
 	if m.debug {
 		fmt.Printf("loaded node %s->%v\n", l, node)
 	}
-	validateNode(ctx, &node, m)
+	// a stored node is untrusted input: report a malformed one instead of panicking (checkRoot
+	// verifies key order and layers of the top node)
+	if len(node.Value) != len(node.Key) || len(node.Link) != len(node.Key)+1 {
+		return nil, fmt.Errorf("improperly-formatted node %s: %d keys, %d values, %d links",
+			l, len(node.Key), len(node.Value), len(node.Link))
+	}
 	if m.nodeCache != nil {
 		m.nodeCache.Add(cacheKey, &node)
 	}
@@ -98,6 +103,9 @@ func unmarshalStringNode(m *Mast, nodeBytes []byte, l string, node *mastNode) er
 	}
 	if len(stringNode.Key) != len(stringNode.Value) {
 		return fmt.Errorf("cannot unmarshal %s: mismatched keys and values", l)
+	}
+	if len(stringNode.Link) > len(stringNode.Key)+1 {
+		return fmt.Errorf("cannot unmarshal %s: more links than keys+1", l)
 	}
 	*node = mastNode{
 		Node{
